@@ -103,12 +103,12 @@ class Evaluator:
             if isinstance(base, Obj) and e.attr in base.__dict__:
                 return base.__dict__[e.attr]
             raise Unsupported(e, "unbound attribute")
-        if isinstance(e, ast.Call) and isinstance(e.func, ast.Name) and e.func.id in ("len", "max", "min", "abs", "int", "bool", "sum", "any", "all", "str", "tuple", "list") \
+        if isinstance(e, ast.Call) and isinstance(e.func, ast.Name) and e.func.id in ("len", "max", "min", "abs", "int", "bool", "sum", "any", "all", "str", "tuple", "list", "range", "bytes", "divmod") \
                 and all(k.arg == "default" for k in e.keywords):
             args = [self.ev(a) for a in e.args]
             kw = {k.arg: self.ev(k.value) for k in e.keywords}
             try:
-                return {"len": len, "max": max, "min": min, "abs": abs, "int": int, "bool": bool, "sum": sum, "any": any, "all": all, "str": str, "tuple": tuple, "list": tuple}[e.func.id](*args, **kw)
+                return {"len": len, "max": max, "min": min, "abs": abs, "int": int, "bool": bool, "sum": sum, "any": any, "all": all, "str": str, "tuple": tuple, "list": tuple, "range": range, "bytes": bytes, "divmod": divmod}[e.func.id](*args, **kw)
             except Exception:
                 raise Unsupported(e)
         if isinstance(e, (ast.Tuple, ast.List, ast.Set)):
